@@ -3,6 +3,7 @@ package check
 import (
 	"fmt"
 	"go/token"
+	"go/types"
 	"strings"
 
 	"golang.org/x/tools/go/ssa"
@@ -424,6 +425,155 @@ func runTypeRel(c *Ctx, r *Reporter) {
 		}
 		if k == 0 {
 			r.Undecided("%s has no wildcard case", name)
+		}
+	}
+	// accepts: the "cannot be converted from here on" flag takes effect at the level where it is found: every decision
+	// that reads the flag carried around the loop also incorporates right.Fixed of the current level
+	if fd := FindFunc(pkg, "(*Type).accepts"); fd != nil {
+		sf := p.SSAFunc(fd.Obj)
+		var flags []*ssa.Phi
+		for _, b := range sf.Blocks {
+			if naturalLoop(b) == nil {
+				continue
+			}
+			for _, ins := range b.Instrs {
+				if phi, ok := ins.(*ssa.Phi); ok {
+					if bt, ok := phi.Type().Underlying().(*types.Basic); ok && bt.Kind() == types.Bool {
+						flags = append(flags, phi)
+					}
+				}
+			}
+		}
+		if len(flags) == 0 {
+			r.Undecided("(*Type).accepts carries no boolean flag around its loop (the fixedness of the right type)")
+		}
+		for fi, h := range flags {
+			var incorporates func(v ssa.Value, depth int) bool
+			incorporates = func(v ssa.Value, depth int) bool {
+				if depth > 6 || v == ssa.Value(h) {
+					return false
+				}
+				switch x := v.(type) {
+				case *ssa.UnOp:
+					if fa, ok := x.X.(*ssa.FieldAddr); ok {
+						if _, field := fieldAddrInfo(fa); field == "Fixed" {
+							if ph, ok := fa.X.(*ssa.Phi); ok && ph.Block() == h.Block() {
+								return true
+							}
+						}
+					}
+					return incorporates(x.X, depth+1)
+				case *ssa.BinOp:
+					return incorporates(x.X, depth+1) || incorporates(x.Y, depth+1)
+				case *ssa.Phi:
+					if x.Block() == h.Block() {
+						return false
+					}
+					for _, e := range x.Edges {
+						if incorporates(e, depth+1) {
+							return true
+						}
+					}
+					if id := x.Block().Idom(); id != nil && len(id.Instrs) > 0 {
+						if ifi, ok := id.Instrs[len(id.Instrs)-1].(*ssa.If); ok {
+							return incorporates(ifi.Cond, depth+1)
+						}
+					}
+				}
+				return false
+			}
+			var dependsOnFlag func(v ssa.Value, depth int) bool
+			dependsOnFlag = func(v ssa.Value, depth int) bool {
+				if depth > 6 {
+					return false
+				}
+				if v == ssa.Value(h) {
+					return true
+				}
+				switch x := v.(type) {
+				case *ssa.UnOp:
+					return dependsOnFlag(x.X, depth+1)
+				case *ssa.BinOp:
+					return dependsOnFlag(x.X, depth+1) || dependsOnFlag(x.Y, depth+1)
+				case *ssa.Phi:
+					if x.Block() == h.Block() {
+						return false
+					}
+					for _, e := range x.Edges {
+						if dependsOnFlag(e, depth+1) {
+							return true
+						}
+					}
+				}
+				return false
+			}
+			n := 0
+			for _, b := range sf.Blocks {
+				if len(b.Instrs) == 0 {
+					continue
+				}
+				ifi, ok := b.Instrs[len(b.Instrs)-1].(*ssa.If)
+				if !ok || !dependsOnFlag(ifi.Cond, 0) {
+					continue
+				}
+				n++
+				r.Check(incorporates(ifi.Cond, 0), fmt.Sprintf("%s#fixed-flag-current-level[%d.%d]", fd.QName(), fi+1, n), p.Rel(fd.Decl.Pos()),
+					"the decision reads the flag after right.Fixed of the current level was merged into it",
+					"a decision in accepts reads the fixedness flag as it was carried over from the outer levels only, without right.Fixed of the current level: a composite variable inside a literal "+
+						"(`x:[]any` `x = [a]`) is then converted like a constant one level too deep, and wrapAny panics on the variable")
+			}
+			if n == 0 {
+				r.Note("accepts: flag %s is carried around the loop but never decides anything", h.Name())
+			}
+		}
+	}
+	// infer: a composite type is returned as it is only through the recursion into its element type
+	if fd := FindFunc(pkg, "(*Type).infer"); fd != nil {
+		sf := p.SSAFunc(fd.Obj)
+		recv := sf.Params[0]
+		n := 0
+		for _, ret := range returnsOf(sf) {
+			for _, rv := range resultValues(ret, 0) {
+				if rv != ssa.Value(recv) {
+					continue
+				}
+				n++
+				// dominated by the edges on which the name is neither ARRAY nor MAP
+				notComposite := 0
+				for d := ret.Block(); d != nil; d = d.Idom() {
+					id := d.Idom()
+					if id == nil || len(id.Instrs) == 0 {
+						continue
+					}
+					ifi, ok := id.Instrs[len(id.Instrs)-1].(*ssa.If)
+					if !ok {
+						continue
+					}
+					bo, ok := ifi.Cond.(*ssa.BinOp)
+					if !ok || !isNameLoad(bo.X) {
+						continue
+					}
+					if _, isConst := bo.Y.(*ssa.Const); !isConst {
+						continue
+					}
+					edge := 0
+					if bo.Op == token.EQL {
+						edge = 1
+					} else if bo.Op != token.NEQ {
+						continue
+					}
+					if edgeDominates(id, edge, ret.Block()) {
+						notComposite++
+					}
+				}
+				r.Check(notComposite >= 2, fmt.Sprintf("%s#returns-receiver-only-for-basic-types[%d]", fd.QName(), n), p.Rel(instrPos(ret)),
+					"the receiver is returned unchanged only when it is neither an array nor a map",
+					"infer returns its receiver unchanged on a path where it may be an array or a map: an empty literal nested deeper ([[[]]]) keeps its open type, "+
+						"the declared variable gets the non-concrete type [][][] and is later accepted where a concrete type is required (wrapAny panic)")
+			}
+		}
+		if n == 0 {
+			r.Note("infer never returns its receiver")
 		}
 	}
 }
